@@ -1,6 +1,7 @@
 import ElvisVerif.Props.C19
 import ElvisVerif.Lemmas.NdlWhole2
 import ElvisVerif.Lemmas.NdlDup2
+import ElvisVerif.Lemmas.NdlPrefix2
 /-!
 # C19, second part — whole-file rejection, every written form, the exact normal form
 
@@ -156,6 +157,16 @@ theorem c19_offence_after_any_doc (off : Off) (doc : Doc) (hd : doc.Ok) (rest : 
     InFile off (renderDoc .tabs doc ++ rest) 1 :=
   inFile_after_doc (docAt_render doc rest 1 hd.2.1 hd.1 hr hn hd.2.2.2) h
 
+/-- … written in any layout (the rewriting restarts at every line end, so it acts on the
+    description and on what follows it separately) -/
+theorem c19_offence_after_any_doc_any_layout (off : Off) (doc : Doc) (lay : Layout) (hd : (normDoc doc).Ok)
+    (rest : Text) (hr : countTabs (normalise rest) < 1) (hn : NoNl (normalise rest))
+    (h : InFile off (normalise rest) (1 + lc doc.lines)) :
+    InFile off (normalise (renderDoc lay doc ++ rest)) 1 := by
+  rw [normalise_renderDoc_append lay doc hd rest]
+  exact c19_offence_after_any_doc off (normDoc doc) hd (normalise rest) hr hn
+    (by rw [normDoc_lines, lc_norm]; exact h)
+
 theorem doc_ids (doc : Doc) : (doc.map DBlock.block).flatMap Block.ids = doc.sim.networks.map (·.1) := by
   induction doc with
   | nil => rfl
@@ -209,6 +220,26 @@ example : InFile depthOff badDepth 1 := by
   decide
 
 example : parse badDepth = .error (.err .tabs 0) := by decide +kernel
+
+/-- the same file written with four spaces per level and CRLF line ends in the offending block -/
+def badDepthSpaces : Text := renderDoc .spaces good ++
+  ['[','M','a','c','h','i','n','e','s',']','\r','\n',' ',' ',' ',' ',' ',' ',' ',' ','[','M','a','c','h','i','n','e',']','\r','\n']
+
+example : ∃ k n, parse badDepthSpaces = .error (.err k n) := by
+  refine c19_rejects_whole_file_depth _ ?_
+  refine c19_offence_after_any_doc_any_layout depthOff good .spaces (Doc.ok_of_B _ (by decide +kernel)) _
+    (by decide) ?_ ?_
+  · intro r h
+    have h0 : (normalise ['[','M','a','c','h','i','n','e','s',']','\r','\n',' ',' ',' ',' ',' ',' ',' ',' ','[','M','a','c','h','i','n','e',']','\r','\n']).head? = some '[' := by
+      decide
+    rw [h] at h0
+    cases h0
+  · refine InFile.inMachs (ps := []) (tail := ['\t','\t','[','M','a','c','h','i','n','e',']','\n'])
+      (l' := 1 + lc good.lines + 1) (by decide +kernel) (InMachs.here ?_)
+    show 1 < countTabs _
+    decide
+
+example : parse badDepthSpaces = .error (.err .tabs 0) := by decide +kernel
 
 /-- … followed by a `[Machines]` block whose machine has no `[Protocols]`, and a `[Template]` -/
 def noProt : DMach :=
